@@ -203,7 +203,7 @@ def rule_r2(ctx) -> RuleResult:
     # pass-through consumers
     for fname in (X.ARGS, X.RECURSE):
         fn = ctx.fn(fname)
-        arms = X.kind_arms(X.main_loop(fn))
+        arms = X.kind_arms(X.main_loop(fn), ctx=ctx)
         if "N" not in arms:
             rr.bad(Finding("C15.R2", X.CORE, fname, "kind == 'N' arm", "no arm handles nowiki cookies", fn.lineno))
             continue
@@ -218,7 +218,7 @@ def rule_r2(ctx) -> RuleResult:
     # in expand_args the generic `if nowiki: parts.append(ch); continue` must precede the kind dispatch
     # final consumers
     mr = ctx.fn("core.Wtp._finalize_expand.magic_repl")
-    arms = X.kind_arms(mr)
+    arms = X.kind_arms(mr, ctx=ctx)
     if "N" in arms:
         rets = [n for st in arms["N"] for n in ast.walk(st) if isinstance(n, ast.Return) and n.value is not None]
         main = [r for r in rets if not isinstance(r.value, ast.Constant)]
@@ -230,7 +230,7 @@ def rule_r2(ctx) -> RuleResult:
     else:
         rr.bad(Finding("C15.R2", X.CORE, "core.Wtp._finalize_expand.magic_repl", "kind == 'N' arm", "no arm handles nowiki cookies", mr.lineno))
     mf = ctx.fn("parser.magic_fn")
-    arms = X.kind_arms(mf)
+    arms = X.kind_arms(mf, ctx=ctx)
     if "N" in arms:
         arm = arms["N"]
         tcalls = [c for st in arm for c in ast.walk(st) if isinstance(c, ast.Call) and unparse(c.func) == "text_fn"]
